@@ -179,6 +179,43 @@ theorem put_in_view (v : View) (hv : v.wf) (x y w h : Int) (ops : Ops)
     · simp [h1, h2] at hok
   · simp [h1] at hok
 
+/-- PUT: an accepted sprite is assigned to a matrix range of exactly its own size (so the slice assignment of
+    `ByteMatrix.__setitem__` keeps every pixel row at its length): the fit test is made on the size that is written. -/
+theorem put_target_is_sprite_size (v : View) (hv : v.wf) (x y w h : Int) (hw : 0 < w) (hh : 0 < h) (ops : Ops)
+    (hok : put v x y w h = .ok ops) : ∀ op ∈ ops, targetSize v op = (w, h) := by
+  unfold put at hok
+  by_cases h1 : v.contains x y = true
+  · by_cases h2 : v.contains (x + w - 1) (y + h - 1) = true
+    · simp only [h1, h2, not_true_eq_false, if_false] at hok
+      injection hok with hok
+      subst hok
+      intro op hm
+      simp only [List.mem_singleton] at hm
+      subst hm
+      unfold View.contains at h1 h2
+      simp only [decide_eq_true_eq] at h1 h2
+      obtain ⟨h0, hh1, hh2, h3, h4, h5⟩ := hv
+      have ex := clipAxis_range_exact v.W v.x0 v.x1 v.xmin v.xmax v.offX x (x + w - 1 + 1) h0 hh2
+        (xmin_off v) (xmax_off v) (by omega) (by omega) (by omega)
+      have ey := clipAxis_range_exact v.H v.y0 v.y1 v.ymin v.ymax v.offY y (y + h - 1 + 1) h3 h5
+        (ymin_off v) (ymax_off v) (by omega) (by omega) (by omega)
+      simp only [targetSize, View.writeRect, View.convertSlice, ex, ey, Prod.mk.injEq]
+      omega
+    · simp [h1, h2] at hok
+  · simp [h1] at hok
+
+/-- The fit test must be made on the size that is written: tested on half the width (the size record of a Tandy
+    SCREEN 6 array), a 16x6 sprite put 9 pixels left of the right edge of the viewport is accepted although its
+    target range is only 9 columns wide - the pixel rows grow and everything right of the viewport is shifted. -/
+theorem put_checked_on_other_size_counterexample :
+    ∃ (v : View) (ops : Ops), v.wf ∧ putChecked v 40 1 8 6 16 6 = .ok ops ∧
+      (∀ op ∈ ops, targetSize v op = (9, 6)) ∧ put v 40 1 16 6 = .error PcbV.Gen.E.ifc := by
+  refine ⟨(View.full 640 200).set 160 50 208 68 false, _, by decide, rfl, ?_, by decide⟩
+  intro op hm
+  simp only [List.mem_singleton] at hm
+  subst hm
+  decide
+
 /-- **primitive_in_view**: every drawing statement of the integer level, under the current viewport. -/
 theorem primitive_in_view (v : View) (hv : v.wf) (st : Stmt) (ops : Ops) (hok : st.ops v = .ok ops)
     (hfill : ∀ y xl xr, st = .fill y xl xr → v.xmin ≤ xl ∧ xl ≤ xr + 1 ∧ v.ymin ≤ y)
